@@ -6,7 +6,8 @@
 use checks::uow_util::CountingSink;
 use metrique::unit_of_work::metrics;
 use metrique::{AppendAndCloseOnDrop, AppendAndCloseOnDropHandle, FlushGuard, ForceFlushGuard};
-use std::sync::{Arc, Barrier};
+use std::sync::Arc;
+use vcommon::sync::SpinGate as Barrier;
 use std::time::{Duration, Instant};
 use vcommon::serde_json::json;
 use vcommon::sync::{is_miri, progress_tick, ticket};
@@ -311,16 +312,27 @@ fn concurrent_history(rng: &mut Rng, rep: &Report) -> Option<u64> {
     }
     let kinds: Vec<Vec<Kind>> = piles.iter().map(|p| p.iter().map(|x| x.0).collect()).collect();
     let barrier = Arc::new(Barrier::new(nthreads));
+    // in a quarter of the histories some objects are dropped by a panic unwinding through their owner
+    let unwind_pm = if rng.below(4) == 0 { 400 } else { 0 };
     let threads: Vec<_> = piles
         .into_iter()
         .map(|pile| {
             let barrier = barrier.clone();
+            let mut trng = Rng::derive(rng.next_u64(), 6);
             std::thread::spawn(move || {
                 barrier.wait();
                 let mut log = vec![];
                 for (k, o) in pile {
                     let start = ticket();
-                    drop(o);
+                    if trng.below(1000) < unwind_pm {
+                        let r = std::panic::catch_unwind(std::panic::AssertUnwindSafe(move || {
+                            let _held = o;
+                            std::panic::panic_any(IntentionalPanic);
+                        }));
+                        assert!(r.is_err());
+                    } else {
+                        drop(o);
+                    }
                     let end = ticket();
                     progress_tick();
                     log.push((k, start, end));
@@ -340,7 +352,7 @@ fn concurrent_history(rng: &mut Rng, rep: &Report) -> Option<u64> {
         }
     }
     let apps = r.sink.take();
-    let witness = |what: &str| json!({"what": what, "prefix_on_main_thread": format!("{prefix:?}"), "drops_by_thread": format!("{kinds:?}"), "drops": format!("{drops:?}"), "appends": apps.iter().map(|a| a.ticket).collect::<Vec<_>>()});
+    let witness = |what: &str| json!({"what": what, "some_drops_by_unwinding": unwind_pm > 0, "prefix_on_main_thread": format!("{prefix:?}"), "drops_by_thread": format!("{kinds:?}"), "drops": format!("{drops:?}"), "appends": apps.iter().map(|a| a.ticket).collect::<Vec<_>>()});
     if apps.len() != 1 {
         rep.violation(if apps.is_empty() { "never-appended" } else { "appended-twice" }, witness("exactly one append expected at quiescence"));
         return None;
@@ -446,9 +458,18 @@ fn concurrent_creation_history(rng: &mut Rng, rep: &Report) -> Option<u64> {
     Some(Fnv::new().str(&format!("{per:?}{race_force}")).finish() | 1)
 }
 
+/// payload of the panics this harness raises on purpose (silenced in the panic hook)
+struct IntentionalPanic;
+
 fn main() {
     let args = Args::parse();
     let rep = Report::new("C06", &args);
+    let default_hook = std::panic::take_hook();
+    std::panic::set_hook(Box::new(move |info| {
+        if !info.payload().is::<IntentionalPanic>() {
+            default_hook(info);
+        }
+    }));
     vcommon::sync::install_perturbation(args.seed, if is_miri() { 1000 } else { 200 });
     if is_miri() || args.get_u64("tiny", 0) == 1 {
         rep.rule("one concurrent history (owner + guards dealt to 2-4 threads) under the interpreter/sanitizer: UnsafeCell / unsafe Send+Sync protocol, leaks");
